@@ -47,7 +47,7 @@ example : PlainE ({ read := fun _ => 3, argSize := fun _ => some 100, retSize :=
 
 example : (ECalls.cons (.node 1 10 50 {} {} (.cons (.node 2 20 40 {} {} .nil) .nil)) .nil).timed ∧
     (ECalls.cons (.node 1 10 50 {} {} (.cons (.node 2 20 40 {} {} .nil) .nil)) .nil).height ≤ 1024 := by
-  simp [ECalls.timed, ECall.timed, ECalls.height, ECall.height]
+  simp [ECalls.timed, ECall.timed, ECalls.height, ECall.height, u64]
 
 /-- `c17_read_diff_placement`: one call of `f` (with any callees), executed in any thread state
     without active filters: the stream grows by exactly
@@ -59,7 +59,7 @@ example : (ECalls.cons (.node 1 10 50 {} {} (.cons (.node 2 20 40 {} {} .nil) .n
 theorem c17_read_diff_placement (cfg : ECfg) (hp : PlainE cfg) (k : Kind) (s : ESt) (d f t0 t1 : Nat)
     (oE oX : Obs) (kids : ECalls)
     (hg : GoodE s d) (hm : d + kids.height + 1 ≤ cfg.base.maxStack) (hd : d + kids.height + 1 ≤ cfg.base.depthOpt)
-    (ht : t0 < t1) (hk : kids.timed) :
+    (ht : t0 < t1) (htu : t1 < u64) (hk : kids.timed) :
     ∃ R D : List Ev,
       (runECall cfg k s (.node f t0 t1 oE oX kids)).out =
         s.out ++ pendingE s.frames ++
@@ -69,7 +69,7 @@ theorem c17_read_diff_placement (cfg : ECfg) (hp : PlainE cfg) (k : Kind) (s : E
       (∀ e ∈ R, e.time = t0 ∧ HoldsReading oE readEvents e) ∧
       (∀ e ∈ D, e.time = t1 ∧ FromExit oX readEvents R.reverse e) := by
   obtain ⟨h1, _, _⟩ := emitE_call cfg hp k (.node f t0 t1 oE oX kids) s d hg
-    (by simp only [ECall.height]; omega) (by simp only [ECall.height]; omega) ⟨ht, hk⟩
+    (by simp only [ECall.height]; omega) (by simp only [ECall.height]; omega) ⟨ht, htu, hk⟩
   have hFb := entryFrame_b cfg k f t0 d oE
   have hFev := entryFrame_evs_time cfg k f t0 d oE
   have hst : (entryFrame cfg k f t0 d oE).b.start = t0 := by rw [hFb]; rfl
@@ -295,7 +295,7 @@ example : PlainW ({ base := { maxStack := 1024 }, watchCpu := true, varSizes := 
   · rfl
 
 example : (ECalls.cons (.node 1 10 50 {} {} (.cons (.node 2 20 40 {} {} .nil) .nil)) .nil).spaced 0 := by
-  simp [ECalls.spaced, ECall.spaced, ECalls.last, ECall.lastT]
+  simp [ECalls.spaced, ECall.spaced, ECalls.last, ECall.lastT, u64]
 
 example : roomCalls ({ watchCpu := true } : ECfg) .pg (ESt.init { watchCpu := true } [] [])
     (.cons (.node 1 10 50 {} {} (.cons (.node 2 20 40 {} {} .nil) .nil)) .nil) := by
@@ -371,12 +371,12 @@ example : GoodT (ESt.init ({ base := { threshold := 50 }, watchCpu := true } : E
     rejects the call, and the call's EXIT record is written. -/
 theorem c17_dropped_async_flush (cfg : ECfg) (sB : ESt) (f f1 : EFrame) (rest : List EFrame) (tf : Nat)
     (retv : Bool) (o : Obs)
-    (hshort : durOk cfg.base (f.b.endT - f.b.start) tf = false) (hw : f.b.written = false) (htr : f.b.trace = false)
+    (hshort : durOk cfg.base (subU64 f.b.endT f.b.start) tf = false) (hw : f.b.written = false) (htr : f.b.trace = false)
     (hasync : hasAsync (watchStep cfg sB f1.b rest.length o).pend = true) (hend : f1.b.endT ≠ 0) :
     ∃ pre, (exitFinish cfg sB f f1 rest tf retv o).out =
       sB.out ++ pre ++ [.record (exitRec f1.b) (retPayload cfg retv f1)] := by
   have hs := (watchStep_spec cfg sB f1.b rest.length o).1
-  have hc : ((durOk cfg.base (f.b.endT - f.b.start) tf && (!cfg.base.callerMode || f.b.caller)) || f.b.written || f.b.trace) = false := by
+  have hc : ((durOk cfg.base (subU64 f.b.endT f.b.start) tf && (!cfg.base.callerMode || f.b.caller)) || f.b.written || f.b.trace) = false := by
     simp [hshort, hw, htr]
   have hne : (watchStep cfg sB f1.b rest.length o).pend.isEmpty = false := by
     cases hp : (watchStep cfg sB f1.b rest.length o).pend with
